@@ -16,4 +16,18 @@ PROPS = {
         trusted=COMMON_TRUST + ["absence of real Go panics / out-of-bounds reads is evidenced by the correspondence runs (recover), not proved"],
         assumptions=["frame payload length < 2^64 (Go slice)"],
     ),
+    "C09": dict(
+        modules=["Drpc.Props.C09", "Drpc.Tie.C09"],
+        suites=["reader"],
+        rule="reader suite: producible / unusual / malformed / hostile frame sequences (id jumps, superseded packets, control on "
+             "a middle frame, kind change, stale and duplicated ids, 10-byte-varint ids, oversize around the maximum, truncated, "
+             "garbage tail, non-canonical 31-byte headers) for maxima {1,28,29,31,100,1000,4068,4096,5000}, each under six "
+             "chunkings (all-at-once, 1 byte, 7 bytes, frame-aligned, frame-straddling, random) with the final error attached "
+             "to or following the last data, plus ALL partitions of streams <= 12 bytes; a case is non-trivial when the stream "
+             "has >= 2 frames and the chunking >= 2 reads; distinct by hash of (max, final, stream, chunking)",
+        trusted=COMMON_TRUST + ["io.Reader contract: returns 0 <= n <= len(p) bytes in order; the deferred (n>0, err) error is "
+                                "modelled as arriving on the next read (tied by the suite running both placements)"],
+        assumptions=["transport delivers the bytes in order, in non-empty reads (fewer than 100 consecutive empty reads are shown "
+                     "invisible by an oracle on the implementation; 100 give InternalError)"],
+    ),
 }
